@@ -269,7 +269,7 @@ func vp8Corpus(seed int64) []namedFile {
 		label string
 		n     int
 	}{{"qbase", 6}, {"qdelta-y1dc", 4}, {"qdelta-y2dc", 4}, {"qdelta-y2ac", 4}, {"qdelta-uvdc", 4}, {"qdelta-uvac", 4}, {"segments", 5},
-		{"filter-level", 5}, {"filter-simple", 2}, {"sharpness", 3}, {"lf-delta", 3}, {"partitions", 4}, {"ymode", 8}, {"submode", 11}, {"uvmode", 5}, {"skip", 4}, {"prob-updates", 4}}
+		{"filter-level", 5}, {"filter-simple", 2}, {"sharpness", 3}, {"lf-delta", 3}, {"partitions", 4}, {"ymode", 8}, {"submode", 11}, {"uvmode", 5}, {"skip", 4}, {"prob-updates", 4}, {"zero-spelling", 3}}
 	add("base", vp8Preset{"dims": 4, "coeffs": 7})
 	for _, mn := range menus {
 		label, n := mn.label, mn.n
